@@ -33,8 +33,16 @@ func zoneTerm(zs ...string) corev1.NodeSelectorTerm {
 	return corev1.NodeSelectorTerm{MatchExpressions: []corev1.NodeSelectorRequirement{{Key: corev1.LabelTopologyZone, Operator: corev1.NodeSelectorOpIn, Values: zs}}}
 }
 
+// DriverEBS is the CSI name the in-tree "kubernetes.io/aws-ebs" plugin translates to.
+const DriverEBS = "ebs.csi.aws.com"
+
 // GenVolumes adds storage classes, n claims (bound and unbound) and CSINode limits to the world.
-func GenVolumes(r *kit.Rand, w *World, n int) {
+func GenVolumes(r *kit.Rand, w *World, n int) { GenVolumesOpts(r, w, n, false) }
+
+// GenVolumesOpts: with extra also a storage class with an in-tree provisioner, a bound PV without node affinity, an
+// in-tree AWSElasticBlockStore PV, and (AttachVolumes) emptyDir and generic ephemeral volumes.
+func GenVolumesOpts(r *kit.Rand, w *World, n int, extra bool) {
+	w.VolExtra = extra
 	wffc := storagev1.VolumeBindingWaitForFirstConsumer
 	scTerms := [][]string{{kit.Pick(r, Zones)}}
 	if r.Bool() {
@@ -47,13 +55,38 @@ func GenVolumes(r *kit.Rand, w *World, n int) {
 		zonalTerms = append(zonalTerms, Term{{Key: corev1.LabelTopologyZone, Op: "In", Vals: zs}})
 	}
 	anywhere := &storagev1.StorageClass{ObjectMeta: metav1.ObjectMeta{Name: "sc-any", UID: "uid-sc-any"}, Provisioner: DriverB, VolumeBindingMode: &wffc}
+	intree := &storagev1.StorageClass{ObjectMeta: metav1.ObjectMeta{Name: "sc-intree", UID: "uid-sc-intree"}, Provisioner: "kubernetes.io/aws-ebs", VolumeBindingMode: &wffc}
 	w.StorageClasses = []*storagev1.StorageClass{zonal, anywhere}
+	if extra {
+		w.StorageClasses = append(w.StorageClasses, intree)
+	}
 	w.Vols = map[string]*VolSpec{}
 	for i := 0; i < n; i++ {
 		name := fmt.Sprintf("pvc-%d", i)
 		pvc := &corev1.PersistentVolumeClaim{ObjectMeta: metav1.ObjectMeta{Name: name, Namespace: "default", UID: types.UID("uid-" + name), Annotations: map[string]string{"pv.kubernetes.io/bind-completed": "yes"}}}
 		vs := &VolSpec{PVC: pvc}
-		switch r.Intn(5) {
+		kind := r.Intn(5)
+		if extra && r.Chance(1, 3) {
+			kind = 5 + r.Intn(3)
+		}
+		switch kind {
+		case 5: // unbound, storage class with an in-tree provisioner name
+			pvc.Spec.StorageClassName = &intree.Name
+			vs.Driver = DriverEBS
+		case 6: // bound CSI volume that can attach anywhere (no node affinity)
+			pv := &corev1.PersistentVolume{ObjectMeta: metav1.ObjectMeta{Name: "pv-" + name, UID: types.UID("uid-pv-" + name)},
+				Spec: corev1.PersistentVolumeSpec{PersistentVolumeSource: corev1.PersistentVolumeSource{CSI: &corev1.CSIPersistentVolumeSource{Driver: DriverA, VolumeHandle: name}},
+					Capacity: corev1.ResourceList{corev1.ResourceStorage: resource.MustParse("1Gi")}}}
+			pvc.Spec.VolumeName, pvc.Spec.StorageClassName = pv.Name, &zonal.Name
+			vs.PV, vs.Driver = pv, DriverA
+		case 7: // bound in-tree EBS volume with a zone affinity
+			z := kit.Pick(r, Zones)
+			pv := &corev1.PersistentVolume{ObjectMeta: metav1.ObjectMeta{Name: "pv-" + name, UID: types.UID("uid-pv-" + name)},
+				Spec: corev1.PersistentVolumeSpec{PersistentVolumeSource: corev1.PersistentVolumeSource{AWSElasticBlockStore: &corev1.AWSElasticBlockStoreVolumeSource{VolumeID: name}},
+					NodeAffinity: &corev1.VolumeNodeAffinity{Required: &corev1.NodeSelector{NodeSelectorTerms: []corev1.NodeSelectorTerm{zoneTerm(z)}}},
+					Capacity:     corev1.ResourceList{corev1.ResourceStorage: resource.MustParse("1Gi")}}}
+			pvc.Spec.VolumeName = pv.Name
+			vs.PV, vs.Driver, vs.Terms = pv, DriverEBS, []Term{{{Key: corev1.LabelTopologyZone, Op: "In", Vals: []string{z}}}}
 		case 0: // unbound, zonal storage class
 			pvc.Spec.StorageClassName = &zonal.Name
 			vs.Driver, vs.Terms = DriverA, zonalTerms
@@ -102,6 +135,9 @@ func GenVolumes(r *kit.Rand, w *World, n int) {
 			if r.Chance(1, 3) {
 				w.CSILimits[ns.Node.Name][DriverB] = int32(r.Range(0, 2))
 			}
+			if extra && r.Chance(1, 2) {
+				w.CSILimits[ns.Node.Name][DriverEBS] = int32(r.Range(1, 2))
+			}
 		}
 	}
 }
@@ -111,11 +147,28 @@ func AttachVolumes(r *kit.Rand, w *World, p *corev1.Pod) {
 	if len(w.VolOrder) == 0 {
 		return
 	}
+	if w.VolExtra && r.Chance(1, 3) { // volumes without a claim, and a generic ephemeral volume whose claim is named <pod>-<volume>
+		p.Spec.Volumes = append(p.Spec.Volumes, corev1.Volume{Name: "scratch", VolumeSource: corev1.VolumeSource{EmptyDir: &corev1.EmptyDirVolumeSource{}}})
+		if r.Bool() {
+			sc := "sc-any"
+			name := p.Name + "-eph"
+			if _, ok := w.Vols[name]; !ok {
+				w.Vols[name] = &VolSpec{Driver: DriverB, PVC: &corev1.PersistentVolumeClaim{ObjectMeta: metav1.ObjectMeta{Name: name, Namespace: "default", UID: types.UID("uid-" + name)},
+					Spec: corev1.PersistentVolumeClaimSpec{StorageClassName: &sc}}}
+				w.VolOrder = append(w.VolOrder, name)
+			}
+			p.Spec.Volumes = append(p.Spec.Volumes, corev1.Volume{Name: "eph", VolumeSource: corev1.VolumeSource{Ephemeral: &corev1.EphemeralVolumeSource{
+				VolumeClaimTemplate: &corev1.PersistentVolumeClaimTemplate{Spec: corev1.PersistentVolumeClaimSpec{StorageClassName: &sc}}}}})
+		}
+	}
 	for i, n := 0, r.Range(1, 2); i < n; i++ {
 		name := kit.Pick(r, w.VolOrder)
 		dup := false
 		for _, v := range p.Spec.Volumes {
-			dup = dup || v.PersistentVolumeClaim.ClaimName == name
+			dup = dup || (v.PersistentVolumeClaim != nil && v.PersistentVolumeClaim.ClaimName == name)
+		}
+		if len(name) > 4 && name[len(name)-4:] == "-eph" {
+			dup = true // claims of ephemeral volumes belong to one pod
 		}
 		if !dup {
 			p.Spec.Volumes = append(p.Spec.Volumes, corev1.Volume{Name: fmt.Sprintf("v%d", i), VolumeSource: corev1.VolumeSource{PersistentVolumeClaim: &corev1.PersistentVolumeClaimVolumeSource{ClaimName: name}}})
@@ -127,10 +180,16 @@ func AttachVolumes(r *kit.Rand, w *World, p *corev1.Pod) {
 func (w *World) DumpPod(p *corev1.Pod) PodDump {
 	d := DumpPod(p)
 	for _, v := range p.Spec.Volumes {
-		if v.PersistentVolumeClaim == nil {
+		claim := ""
+		switch {
+		case v.PersistentVolumeClaim != nil:
+			claim = v.PersistentVolumeClaim.ClaimName
+		case v.Ephemeral != nil:
+			claim = p.Name + "-" + v.Name
+		default:
 			continue
 		}
-		vs, ok := w.Vols[v.PersistentVolumeClaim.ClaimName]
+		vs, ok := w.Vols[claim]
 		if !ok {
 			continue
 		}
